@@ -137,6 +137,11 @@ Check(e, l) ==
     [] e.ev = "obs"   -> CheckObs(e, l)
     [] e.ev = "final" -> CheckFinal(e, l)
     [] e.ev = "scan"  -> (e.note # "" => Reject(l, "scan:error", [note |-> e.note]))
+    \* a start-up batch that ran for more than five seconds (it publishes what it has and goes on
+    \* loading): afterwards the loaded set is the shard files on disk and every one of them is mapped
+    [] e.ev = "slowload" -> /\ (e.note # "" => Reject(l, "scan:error", [note |-> e.note]))
+                            /\ (e.loaded # e.want => Reject(l, "converge:slow-load", [want |-> e.want]))
+                            /\ (e.unmapped # <<>> => Reject(l, "loaded-shard-unmapped", [unmapped |-> e.unmapped]))
     [] OTHER          -> TRUE
 
 ASSUME \A i \in 1..N : LET e == Trace[i] IN Check(e, i)
